@@ -82,6 +82,13 @@ def count_part(ctx, fails):
             tabs.append(tuple(ctx.rng.randint(1, 5000) for _ in range(4)))
         else:
             tabs.append(tuple(ctx.rng.randint(1, 4000) / 8.0 for _ in range(4)))
+    # near-null tables: equal or almost equal risks in very large arms (RD of order 1e-10 .. 1e-6, RR/OR within 1e-5 of 1),
+    # and balanced tables with RD exactly 0 -- the measures are still 1/RD, log-ratios etc., not their limits
+    for _ in range(12 if ctx.quick else 120):
+        n1 = ctx.rng.choice([10 ** 5, 3 * 10 ** 5, 10 ** 6])
+        k = ctx.rng.choice([1, 2, 7, 500, n1 // 2])
+        tabs.append((k, n1 - k, k, n1 - k + ctx.rng.choice([0, 1, 3])))
+        tabs.append((k + 1, n1 - k - 1, k, n1 - k + ctx.rng.choice([1, 2])))
     side = sidecar() if ctx.gen.get('calc', {}).get('ok') else None
     tr = None
     if side:
